@@ -1,14 +1,25 @@
-"""Self-test corpora for the thorough tier: sensitivity (the rule fires on a scratch copy with one construct
-broken) and neutrality (behaviour-preserving edits stay silent).  Variants are AST/text edits of the CURRENT
-sources applied to a scratch copy outside /repo and /verif, analysed with the same rules, removed afterwards.
-Outcomes are printed as SELFTEST lines and counted in the evidence; they never produce VIOLATION lines."""
+"""Self-test corpora (thorough tier): sensitivity and neutrality of each check, measured on scratch copies.
+
+break variants    the confirmed seeded changes committed under /verif/seeded/<seed>/ (patch.diff + meta.json) whose
+                  meta.json lists this property under "caught_by": the check must report a violation with the patch applied;
+neutral variants  (a) `reformat`: every file the property is anchored in is rewritten with ast.unparse (layout, comments and
+                  line numbers change, behaviour does not), (b) `shift`: blank/comment lines are inserted at the top of those
+                  files, (c) hand-written behaviour-preserving patches under /verif/selftest/neutral/<Cxx>/*.diff:
+                  the check must stay silent.
+Scratch copies live under the system temp directory and are removed after each variant.  A patch that no longer applies
+to the current working tree is reported as `stale` and skipped.  Outcomes are printed as SELFTEST lines and summarised in
+the evidence; they never produce VIOLATION lines and do not change the exit code (the tree under test may differ from the
+tree the patches were written for) — `tools/selftest_all.sh` is the maintainer's gate that turns them into a failure."""
 from __future__ import annotations
 
+import ast
 import importlib
 import io
+import json
 import os
 import pathlib
 import shutil
+import subprocess
 import sys
 import tempfile
 from concurrent.futures import ProcessPoolExecutor
@@ -17,29 +28,56 @@ from contextlib import redirect_stdout
 from sa.model import AnalysisError, Repo
 from sa.report import Ctx, load_known
 
-VARIANTS = {}  # pid -> list of dict(name, kind 'break'|'neutral', file, old, new, expect_rule)
+ROOT = pathlib.Path(__file__).resolve().parent.parent
 
 
-def register(pid, name, kind, file, old, new, expect=None, count=1):
-    VARIANTS.setdefault(pid, []).append(dict(name=name, kind=kind, file=file, old=old, new=new, expect=expect, count=count))
+def variants_for(pid: str):
+    out = []
+    for meta in sorted((ROOT / "seeded").glob("*/meta.json")):
+        try:
+            m = json.loads(meta.read_text())
+        except Exception:
+            continue
+        if pid in m.get("caught_by", []) and (meta.parent / "patch.diff").exists():
+            out.append({"name": meta.parent.name, "kind": "break", "patch": str(meta.parent / "patch.diff")})
+    out.append({"name": "neutral:reformat", "kind": "neutral", "transform": "reformat"})
+    out.append({"name": "neutral:shift", "kind": "neutral", "transform": "shift"})
+    for p in sorted((ROOT / "selftest" / "neutral" / pid).glob("*.diff")):
+        out.append({"name": f"neutral:{p.stem}", "kind": "neutral", "patch": str(p)})
+    return out
+
+
+def anchored_files(pid: str):
+    for line in (ROOT / "properties.jsonl").read_text().splitlines():
+        d = json.loads(line)
+        if d["id"] == pid:
+            return [f for f in d.get("anchors", {}).get("files", []) if f.endswith(".py")]
+    return []
 
 
 def _run_variant(args):
-    pid, root, v = args
+    pid, root, v, max_seconds = args
     d = tempfile.mkdtemp(prefix="okdmr-verif-st-")
     try:
-        shutil.copytree(os.path.join(root, "okdmr", "dmrlib"), os.path.join(d, "okdmr", "dmrlib"),
-                        ignore=shutil.ignore_patterns("__pycache__", "tests"))
-        p = pathlib.Path(d) / v["file"]
-        src = p.read_text()
-        if src.count(v["old"]) < 1:
-            return v["name"], "stale", f"anchor text not found in {v['file']}"
-        p.write_text(src.replace(v["old"], v["new"], v["count"]))
-        try:
-            compile(p.read_text(), str(p), "exec")
-        except SyntaxError as e:
-            return v["name"], "stale", f"variant does not compile: {e}"
-        sys.path.insert(0, str(pathlib.Path(__file__).resolve().parent.parent))
+        for sub in ("dmrlib", "tests"):
+            src = os.path.join(root, "okdmr", sub)
+            if os.path.isdir(src):
+                shutil.copytree(src, os.path.join(d, "okdmr", sub), ignore=shutil.ignore_patterns("__pycache__"))
+        if v.get("patch"):
+            r = subprocess.run(["git", "apply", "--whitespace=nowarn", v["patch"]], cwd=d, capture_output=True, text=True)
+            if r.returncode != 0:
+                return v["name"], "stale", "patch does not apply to the current tree"
+        else:
+            for rel in anchored_files(pid):
+                p = pathlib.Path(d) / rel
+                if not p.exists():
+                    continue
+                src = p.read_text()
+                if v["transform"] == "reformat":
+                    p.write_text(ast.unparse(ast.parse(src)) + "\n")
+                else:
+                    p.write_text("# shifted by the self-test\n#\n\n" + src)
+        sys.path.insert(0, str(ROOT))
         buf = io.StringIO()
         with redirect_stdout(buf):
             try:
@@ -48,33 +86,38 @@ def _run_variant(args):
                 importlib.import_module(f"rules.{pid.lower()}").run(ctx)
             except AnalysisError as e:
                 return v["name"], "analysis-error", str(e)[:200]
+            except Exception as e:  # the checker crashed on the variant
+                return v["name"], "analysis-error", f"{type(e).__name__}: {e}"[:200]
         known = {k["key"] for k in load_known().get("known", []) if k.get("property") == pid}
         failing = [o for o in ctx.obligations if not o["ok"] and o["key"] not in known]
-        if ctx.analysis_errors and not failing:
-            return v["name"], "analysis-error", ctx.analysis_errors[0][:200]
         if v["kind"] == "break":
-            if not failing:
-                return v["name"], "missed", "no rule fired"
-            if v["expect"] and not any(v["expect"] in o["key"] for o in failing):
-                return v["name"], "wrong-rule", failing[0]["key"][:160]
-            return v["name"], "caught", failing[0]["key"][:160]
-        return (v["name"], "silent", "") if not failing else (v["name"], "false-alarm", failing[0]["key"][:160])
+            if failing:
+                return v["name"], "caught", failing[0]["key"][:160]
+            if ctx.analysis_errors:
+                return v["name"], "analysis-error", ctx.analysis_errors[0][:200]
+            return v["name"], "missed", "no rule fired"
+        if failing:
+            return v["name"], "false-alarm", failing[0]["key"][:160]
+        if ctx.analysis_errors:
+            return v["name"], "analysis-error", ctx.analysis_errors[0][:200]
+        return v["name"], "silent", ""
     finally:
         shutil.rmtree(d, ignore_errors=True)
 
 
-def run_selftests(ctx):
+def run_selftests(ctx, workers=None):
     pid = ctx.pid
-    try:
-        importlib.import_module(f"selftest.variants_{pid.lower()}")
-    except ModuleNotFoundError:
-        ctx.selftest = {"variants": 0, "note": "no self-test corpus registered for this property yet"}
-        return
-    vs = VARIANTS.get(pid, [])
+    if any(not o["ok"] for o in ctx.obligations) or ctx.analysis_errors:
+        known = {k["key"] for k in load_known().get("known", []) if k.get("property") == pid}
+        if ctx.analysis_errors or any(not o["ok"] and o["key"] not in known for o in ctx.obligations):
+            ctx.selftest = {"variants": 0, "note": "skipped: the tree under test does not pass the check itself"}
+            return
+    vs = variants_for(pid)
     root = str(ctx.repo.root)
-    with ProcessPoolExecutor(max_workers=min(16, max(1, len(vs)))) as ex:
-        results = list(ex.map(_run_variant, [(pid, root, v) for v in vs]))
-    summary = {"variants": len(vs), "caught": 0, "silent": 0, "missed": [], "false_alarm": [], "stale": [], "analysis_error": [], "wrong_rule": []}
+    heavy = pid in ("C02", "C07", "C12", "C05", "C10")
+    with ProcessPoolExecutor(max_workers=workers or (4 if heavy else min(12, max(1, len(vs))))) as ex:
+        results = list(ex.map(_run_variant, [(pid, root, v, 1800) for v in vs]))
+    summary = {"variants": len(vs), "caught": 0, "silent": 0, "missed": [], "false_alarm": [], "stale": [], "analysis_error": []}
     for name, outcome, detail in results:
         print(f"SELFTEST {pid} {name}: {outcome} {detail}")
         if outcome in ("caught", "silent"):
@@ -82,7 +125,4 @@ def run_selftests(ctx):
         else:
             summary[outcome.replace("-", "_")].append(name)
     ctx.selftest = summary
-    bad = summary["missed"] + summary["false_alarm"] + summary["stale"] + summary["analysis_error"] + summary["wrong_rule"]
-    if bad:
-        # the checker, not the code, is what failed: exit 2, never a VIOLATION
-        ctx.analysis_errors.append(f"self-test corpus: {len(bad)} variant(s) not handled as expected: {bad[:6]}")
+    return summary
